@@ -586,6 +586,18 @@ fn kf_c06_xlsx_shared_formula_index_does_not_amplify() {
     assert!(peak < 16 << 20, "a {n} byte xlsx with one shared formula (si = 3000000) made worksheet_formula allocate {peak} bytes");
 }
 
+#[test]
+fn kf_c06_format_code_with_256_open_brackets() {
+    // detect_custom_number_format counts `[` in a u8: the 256th unmatched one overflows (panic with overflow checks,
+    // wrap to 0 -- and a wrong classification of what follows -- without)
+    let code = format!("{}h]:mm", "[".repeat(256));
+    let styles = format!(r#"<?xml version="1.0" encoding="UTF-8"?><styleSheet xmlns="http://schemas.openxmlformats.org/spreadsheetml/2006/main"><numFmts count="1"><numFmt numFmtId="164" formatCode="{code}"/></numFmts><cellXfs count="2"><xf numFmtId="0"/><xf numFmtId="164"/></cellXfs></styleSheet>"#);
+    let sh = sheet(r#"<row r="1"><c r="A1" s="1"><v>1.5</v></c></row>"#);
+    let bytes = rezip(&minimal_xlsx(&sh, &[]), &[("xl/styles.xml", styles.into_bytes())]);
+    no_panic("formatCode with 256 unmatched `[`", || exercise(bytes, "xlsx"));
+    finish();
+}
+
 // R-ARITH / R-INDEX xlsx
 
 #[test]
